@@ -1815,6 +1815,11 @@ class slate_BradleyTerry(BallotGenerator):
             for _ in range(len(self.pref_intervals_by_bloc[bloc][b].non_zero_cands))
         ]
 
+        # with fewer than two positions there is no adjacent pair to swap,
+        # so the chain never leaves the seed ballot type
+        if len(seed_ballot_type) < 2:
+            return [seed_ballot_type.copy() for _ in range(num_ballots)]
+
         ballots = [[-1]] * num_ballots
         accept = 0
         current_ranking = seed_ballot_type
